@@ -8,6 +8,9 @@ pub mod parser;
 pub mod plugins;
 pub mod examples;
 
+#[cfg(markdown_it_verif)]
+pub mod verif;
+
 pub use parser::node::{Node, NodeValue};
 pub use parser::main::MarkdownIt;
 pub use parser::renderer::Renderer;
